@@ -246,7 +246,12 @@ def parse_report(text):
         elif line.startswith("XLINE "):
             rep["x"].append(line)
         elif line.startswith("STAT "):
-            for kv in line[5:].split(" "):
+            body = line[5:]
+            m = re.search(r"evhist=\[([^\]]*)\]", body)
+            if m:
+                rep["stat"]["evhist"] = [int(x) for x in m.group(1).replace(" ", "").split(",") if x]
+                body = body[:m.start()]
+            for kv in body.split(" "):
                 if "=" in kv:
                     k, v = kv.split("=", 1)
                     rep["stat"][k] = v
